@@ -5,7 +5,7 @@
    cache reads/writes of sighash.rs (Model/Cache.v); `step_pure` / `run_pure` are the same API with no cache
    at all; `sighash_preimage` is the uncached computation (Model/Sighash.v, properties C03 / C10). *)
 From BSV Require Import Base.Hex Prim.Sha256 Model.Opcodes Model.Script Model.VarInt Model.Tx Model.Sighash Model.Cache
-  Proofs.CacheProofs.
+  Spec.TxWire Spec.SighashWire Proofs.TxProofs Proofs.CacheProofs Proofs.CacheFresh.
 Local Open Scope list_scope.
 
 (* 1. the invariant: each slot is absent or holds the hash of the current inputs / sequences / outputs *)
@@ -80,6 +80,26 @@ Theorem C04_equals_fresh_parse_partial :
 Proof. exact equals_fresh_parse. Qed.
 Print Assumptions C04_equals_fresh_parse_partial.
 
+(* 4, in full, from the C01 / C03 / C10 theorems: when the current contents are in range and their scripts
+   are ones the script parser accepts (Proofs/TxProofs.fields_ok — everything a parsed or API-built transaction
+   with 32-byte outpoint ids satisfies), the serialisation parses, and for each of the fourteen flags and every
+   subscript of the parser's form the answer after any history equals the answer on the freshly parsed copy *)
+Theorem C04_equals_fresh_parse :
+  forall (H : bytes -> bytes) s idx f sub v,
+    Inv H s -> fields_ok (fields_of (st_tx s)) -> is_sighash f = true -> plain_bits sub = true ->
+    exists t', tx_from_bytes (tx_bytes (st_tx s)) = Ok t' /\
+               snd (sighash_cached H s idx f sub v) = snd (sighash_cached H (fresh t') idx f sub v).
+Proof. exact equals_fresh_parse_full. Qed.
+Print Assumptions C04_equals_fresh_parse.
+
+(* the preimage is a function of the wire-level view of the contents (all fourteen flags) *)
+Theorem C04_preimage_depends_on_view :
+  forall (H : bytes -> bytes) t t' idx f sub v,
+    In f all_flags -> plain_bits sub = true -> view_tx t' = view_tx t ->
+    sighash_preimage H t' idx f sub v = sighash_preimage H t idx f sub v.
+Proof. exact preimage_depends_on_view. Qed.
+Print Assumptions C04_preimage_depends_on_view.
+
 (* ------------------------------------------------------------------ *)
 (* non-vacuity, and documentation of the repaired defect, with H = SHA-256 twice on a concrete transaction
    (one input, two outputs).  History: sighash ALL|FORKID ; replace output 0 (resp. input 0) ; same sighash. *)
@@ -125,3 +145,17 @@ Example C04_prefix_refuted :
   | _, _ => False
   end.
 Proof. vm_compute. repeat split. Qed.
+
+(* the hypotheses of C04_equals_fresh_parse are satisfiable: the example transaction is in range with parseable scripts *)
+Example C04_fresh_parse_nonvacuous :
+  fields_ok (fields_of ex_tx) /\ plain_bits [BOp 172] = true /\ is_sighash 65 = true.
+Proof.
+  split; [|split; reflexivity].
+  unfold fields_ok. cbn [fields_of ex_tx f_version f_locktime f_ins f_outs map version inputs outputs locktime length].
+  split; [reflexivity|]. split; [reflexivity|]. split; [reflexivity|]. split; [reflexivity|]. split.
+  - apply Forall_cons; [|apply Forall_nil]. split.
+    + unfold in_range. repeat split; vm_compute; reflexivity.
+    + intros _. apply script_ok_dec. vm_compute. reflexivity.
+  - apply Forall_cons; [|apply Forall_cons; [|apply Forall_nil]];
+      (split; [unfold out_range; split; vm_compute; reflexivity | apply script_ok_dec; vm_compute; reflexivity]).
+Qed.
